@@ -13,6 +13,17 @@ pub fn extra_fns() -> ExtraFns {
 
 /// A document biased towards what the "fails midway" expressions look at.
 pub fn gen_doc(r: &mut Rng) -> J {
+    if r.chance(1, 160) {
+        // a really big array (thousands of elements, lengths around powers of two and not
+        // divisible by 4): chunked, parallel or size-thresholded code paths wake up here
+        let n = *r.pick(&[2048usize, 2049, 3001, 4097, 5003, 2050]);
+        let ys: Vec<J> = (0..n).map(|i| J::Int(((i * 7919) % 1009) as i64 - 300)).collect();
+        return J::Obj(vec![
+            ("ys".to_string(), J::Arr(ys)),
+            ("a".to_string(), J::Int(r.range(-3, 9))),
+            ("xs".to_string(), J::Arr(vec![])),
+        ]);
+    }
     if r.chance(1, 2) {
         // now and then a long array with many equal sort keys: ties are where a sort's
         // stability (and anything else order-sensitive) becomes observable
